@@ -16,7 +16,7 @@ from ..monitors import fakenet
 PROPERTY = "C19"
 LEVEL = "fault_enumeration"
 LEVEL_TEXT = ("Fault injection around the real load_csv_dataset_from_remote / load_dataset, one fresh child process per "
-              "crash case: (a) scripted network fault sequences (URLError, TimeoutError, HTTP 503, short body) of every "
+              "crash case: (a) scripted network fault sequences (URLError, TimeoutError, HTTP 503, short body, time-out in mid-body) of every "
               "length 0..n_retries+2 for n_retries 0..3 followed by good / corrupted / truncated / garbage / gzip "
               "payloads, judged on requests issued, virtual sleeps, exception type, cache state and a follow-up load; "
               "(b) a SIGKILL at every Python LINE event, every CALL / C_RETURN event inside datasets/_base.py and every "
@@ -39,8 +39,9 @@ REQUIRED_MONITORS = ["c19:fault_sequence", "c19:kill_line", "c19:kill_call", "c1
                      "c19:followup_after_kill"]
 ASSUMPTIONS = ["process crash only (no fsync / power loss claims)", "the fake opener stands for the network"]
 TIMEOUT = {"quick": 900, "thorough": 7200}
-FAULTS = ["urlerror", "timeout", "http503", "short"]
-FAULT_EXC = {"urlerror": "URLError", "timeout": "TimeoutError", "http503": "HTTPError", "short": "ContentTooShortError"}
+FAULTS = ["urlerror", "timeout", "http503", "short", "midbody"]
+FAULT_EXC = {"urlerror": "URLError", "timeout": "TimeoutError", "http503": "HTTPError", "short": "ContentTooShortError",
+             "midbody": "TimeoutError"}
 FINALS = ["good", "corrupt", "truncated", "garbage", "gzgood"]
 URL = "https://example.invalid/files/%s"
 NSH = 16
@@ -90,10 +91,10 @@ def plan(tier, seed):
 
 def exhaustive(tier, merged):
     if tier == "quick":
-        return ("fault sequences: all over 4 fault kinds of length 0..n_retries+2 for n_retries 0..2 (+ a sample for 3) x 5 "
+        return ("fault sequences: all over 5 fault kinds of length 0..n_retries+2 for n_retries 0..2 (+ a sample for 3) x 5 "
                 "final payloads; crash points: every 4th LINE event and every CALL/C_RETURN and traced syscall of one "
                 "configuration; flag table complete")
-    return ("fault sequences: all 1812 over 4 fault kinds of length 0..n_retries+2 for n_retries 0..3 x 5 final payloads; "
+    return ("fault sequences: all 4687 over 5 fault kinds of length 0..n_retries+2 for n_retries 0..3 x 5 final payloads; "
             "crash points: every LINE, CALL/C_RETURN event and traced syscall of all (gzip x flags x cache x payload "
             "size) configurations; flag table complete; all ordered pairs of the remote names")
 
@@ -149,7 +150,7 @@ def run_faults(ctx, spec):
 
 def judge_fault(ctx, nr, seq, fin, r, lst, follow, home=None):
     cid = {"kind": "faults", "n_retries": nr, "sequence": seq, "final": fin, "seed": ctx.seed}
-    url = URL % ("fs-%d-%s-%s" % (nr, "".join(s[0] for s in seq), fin))
+    url = URL % ("fs-%d-%s-%s" % (nr, "".join(s[0] for s in seq), fin))     # initials: u t h s m
     f = len(seq)
     ctx.judged()
     ctx.monitor("c19:fault_sequence")
